@@ -432,6 +432,101 @@ class Gen:
         return ("group {" + ", ".join(frame[i].ref for i in ks) + "} (" + " | ".join(inner) + ")",
                 "( group_take ( " + " ".join(map(str, ks)) + " ) ( " + " ".join(sk[1] if sk else []) + f" ) {o(lo)} {o(hi)} )", nf)
 
+    # -- window functions (C04)
+    def tr_window(self, frame, sname):
+        rng = self.rng
+        form = rng.choice(["plain", "group", "group_sort", "sort_window", "group_sort_window", "sort_fns"])
+        ints = [(i, c) for i, c in enumerate(frame) if c.ty == INT]
+        keys = [(i, c) for i, c in enumerate(frame) if c.key]
+        if not ints:
+            return None
+        ks = []
+        if form.startswith("group"):
+            ks = self.group_keys(frame) or []
+            ks = [i for i in ks if not frame[i].key]
+            if not ks:
+                return None
+        avail = [(i, c) for i, c in ints if i not in ks]
+        if not avail:
+            return None
+        order_t, order_s = [], []
+        needs_order = form in ("group_sort", "sort_window", "group_sort_window", "sort_fns")
+        if needs_order:
+            # a total order: the unique key column (possibly after another key)
+            uk = [(i, c) for i, c in keys if i not in ks]
+            if not uk:
+                return None
+            if rng.random() < 0.5:
+                i, c = rng.choice(avail)
+                desc = rng.random() < 0.4
+                order_t.append(("-" if desc else "") + c.ref)
+                order_s.append(f"( {'desc' if desc else 'asc'} ( col {i} ) )")
+            i, c = rng.choice(uk)
+            desc = rng.random() < 0.4
+            if c.ref not in order_t and "-" + c.ref not in order_t:
+                order_t.append(("-" if desc else "") + c.ref)
+                order_s.append(f"( {'desc' if desc else 'asc'} ( col {i} ) )")
+        # frame
+        fr_t, fr_s = "", "-"
+        if form in ("sort_window", "group_sort_window"):
+            k = rng.random()
+            if k < 0.25:
+                n = rng.randint(1, 3)
+                fr_t, fr_s = f"rolling:{n}", f"( {1 - n} 0 )"
+            elif k < 0.4:
+                fr_t, fr_s = "expanding:true", "( - 0 )"
+            else:
+                lo = rng.choice([None, -2, -1, 0, 1])
+                hi = rng.choice([None, -1, 0, 1, 2])
+                if lo is not None and hi is not None and lo > hi:
+                    lo, hi = hi, lo
+                if lo is None and hi is None:
+                    lo = -1
+                o = lambda x: "-" if x is None else str(x)
+                fr_t = f"rows:{'' if lo is None else lo}..{'' if hi is None else hi}"
+                fr_s = f"( {o(lo)} {o(hi)} )"
+        # functions
+        fns_aggr = ["sum", "count", "min", "max"]
+        fns_order = ["row_number", "rank", "rank_dense", "lag", "lead", "first", "last"]
+        items, ws, nf = [], [], []
+        part = "( " + " ".join(map(str, ks)) + " )"
+        order = "( " + " ".join(order_s) + " )"
+        for _ in range(rng.randint(1, 3)):
+            pool = fns_aggr + (fns_order if (needs_order and not fr_t) else []) + (["first", "last"] if fr_t else [])
+            fn = rng.choice(pool)
+            nm = self.name("w")
+            i, c = rng.choice(avail)
+            if fn == "count":
+                items.append(f"{nm} = count this")
+                ws.append(f"( {part} {order} {fr_s} count ( lit 1 ) )")
+            elif fn == "row_number":
+                items.append(f"{nm} = row_number this")
+                ws.append(f"( {part} {order} - row_number ( lit 1 ) )")
+            elif fn in ("rank", "rank_dense"):
+                items.append(f"{nm} = {fn} {c.ref}")
+                ws.append(f"( {part} {order} - {fn} ( col {i} ) )")
+            elif fn in ("lag", "lead"):
+                n = rng.randint(1, 2)
+                items.append(f"{nm} = {fn} {n} {c.ref}")
+                ws.append(f"( {part} {order} - ( {fn} {n} ) ( col {i} ) )")
+            else:
+                items.append(f"{nm} = {fn} {c.ref}")
+                ws.append(f"( {part} {order} {fr_s} {fn} ( col {i} ) )")
+            nf.append(Col(nm, INT))
+        der = "derive {" + ", ".join(items) + "}"
+        if fr_t:
+            der = f"window {fr_t} ({der})"
+        base = [frame[i].copy() for i in ks] + [c.copy() for i, c in enumerate(frame) if i not in ks]
+        sx_w = f"( window ( {' '.join(map(str, ks))} ) ( " + " ".join(ws) + " ) )"
+        if form in ("plain",):
+            return (der, sx_w, base + nf)
+        if form == "group":
+            return ("group {" + ", ".join(frame[i].ref for i in ks) + "} (" + der + ")", sx_w, base + nf)
+        if form in ("group_sort", "group_sort_window"):
+            return ("group {" + ", ".join(frame[i].ref for i in ks) + "} (sort {" + ", ".join(order_t) + "} | " + der + ")", sx_w, base + nf)
+        # top-level sort followed by the windowed derive (two transforms in one step)
+        return ("sort {" + ", ".join(order_t) + "}\n" + der, f"( sort {order} ) " + sx_w, base + nf)
+
     def tr_join(self, frame, sname):
         rng = self.rng
         srcs = [s for s in self.sources() if s[2] != sname]
